@@ -165,13 +165,13 @@ func init() {
 	}
 }
 
-// enumShape returns configuration j of the exhaustive family of C05: 6 small shapes x all
+// enumShape returns configuration j of the exhaustive family of C05: 7 small shapes x all
 // 4^3 assignments of {unset, shared, contextual, non_shared} to (a, b, c).
 func enumShape(j int) *gen.Cfg {
 	scopes := []string{"", "shared", "contextual", "non_shared"}
 	// a fixed permutation of the family, so that any prefix samples all shapes and assignments
 	j = (j * 37) % EnumFamily
-	shape, as := j%6, j/6
+	shape, as := j%7, j/7
 	sc := []string{scopes[as%4], scopes[(as/4)%4], scopes[(as/16)%4]}
 	fx := `"` + gen.FxPath + `"`
 	node := func(name string, scope string, args ...gen.Arg) gen.Svc {
@@ -198,6 +198,8 @@ func enumShape(j int) *gen.Cfg {
 		b.Calls = []gen.Call{{Method: "WithA", Args: []gen.Arg{ref("c")}, Wither: true}}
 		c.Services = []gen.Svc{a, b, node("c", sc[2])}
 		c.Decorators = []gen.Dec{{Tag: "t", Fn: fx + ".Decorate", Args: []gen.Arg{ref("b")}}}
+	case 6: // chain whose end is a todo placeholder that declares a scope (verdict only)
+		c.Services = []gen.Svc{node("a", sc[0], ref("b")), node("b", sc[1], ref("c")), {Name: "c", Todo: true, Scope: sc[2]}}
 	case 4, 5: // two decorators on two tags: a carries only t1 (decorated with b); c sits behind the decorator of t0
 		a := node("a", sc[0])
 		a.Tags = []gen.Tag{{Name: "t1"}}
@@ -215,8 +217,8 @@ func enumShape(j int) *gen.Cfg {
 	return c
 }
 
-// EnumFamily is the size of the exhaustive C05 family: 6 shapes x 4^3 scope assignments.
-const EnumFamily = 6 * 64
+// EnumFamily is the size of the exhaustive C05 family: 7 shapes x 4^3 scope assignments.
+const EnumFamily = 7 * 64
 
 // enumCfg15 is the small configuration whose histories C15 enumerates exhaustively.
 func enumCfg15() *gen.Cfg {
